@@ -205,26 +205,33 @@ def enqueue (s : SState) (i : Item) : SState :=
 def dbAfter (cur : Int) (q : List Item) : Int :=
   q.foldl (fun d i => if i.cmd = bSelect then i.db else d) cur
 
+/-- the checkpoint requests of one flush (`u` = "update the checkpoint", already
+    guarded by D4): run-id fields once per connection DB, then the offset -/
+def cpPart (c : SCfg) (s : SState) (u : Bool) (off : Int) : List Req :=
+  if u && c.resume then
+    (if s.cpInDbs.contains (dbAfter s.connDb s.queue) then [] else [Req.cpMeta]) ++ [Req.cpOffset off]
+  else []
+
+def cpInAfter (c : SCfg) (s : SState) (u : Bool) : List Int :=
+  if u && c.resume && !(s.cpInDbs.contains (dbAfter s.connDb s.queue))
+  then dbAfter s.connDb s.queue :: s.cpInDbs else s.cpInDbs
+
+/-- the requests of one flush, in wire order -/
+def sendReqs (c : SCfg) (s : SState) (tb u : Bool) (off : Int) : List Req :=
+  (if tb then [Req.multi] else []) ++
+  s.queue.map (fun i => Req.cmd i.cmd i.args) ++ cpPart c s u off ++
+  (if tb then [Req.exec] else [])
+
 /-- `sendFuncOnce(shouldInTransaction, shouldUpdateCP, lastOffset)` with a
     healthy target: the batch put on the wire (`none`: nothing sent, the queue
     is left as it is) -/
 def sendOnce (c : SCfg) (s : SState) (inTxnBatch updCP : Bool) (off : Int) : SState × Option Batch :=
-  let updCP := updCP && decide (0 ≤ off)                       -- D4 repair
-  if s.queue.isEmpty && inTxnBatch && !updCP then (s, none)
-  else
-    -- the checkpoint lands in the DB the connection is in after the queued commands
-    let cpDb := dbAfter s.connDb s.queue
-    let needMeta : Bool := !(s.cpInDbs.contains cpDb)
-    let cpPart : List Req :=
-      if updCP && c.resume then (if needMeta then [Req.cpMeta] else []) ++ [Req.cpOffset off] else []
-    let cpIn : List Int :=
-      if updCP && c.resume && needMeta then cpDb :: s.cpInDbs else s.cpInDbs
-    let reqs : List Req :=
-      (if inTxnBatch then [Req.multi] else []) ++
-      s.queue.map (fun i => Req.cmd i.cmd i.args) ++ cpPart ++
-      (if inTxnBatch then [Req.exec] else [])
-    if reqs.isEmpty then (s, none)
-    else ({ s with queue := [], qbytes := 0, cpInDbs := cpIn, connDb := cpDb }, some reqs)
+  let u := updCP && decide (0 ≤ off)                           -- D4 repair
+  if s.queue.isEmpty && inTxnBatch && !u then (s, none)
+  else if (sendReqs c s inTxnBatch u off).isEmpty then (s, none)
+  else ({ s with queue := [], qbytes := 0, cpInDbs := cpInAfter c s u,
+                 connDb := dbAfter s.connDb s.queue },
+        some (sendReqs c s inTxnBatch u off))
 
 def optToList (b : Option Batch) : List Batch :=
   match b with
@@ -243,35 +250,51 @@ def tail (c : SCfg) (s : SState) (tb up : Bool) (out : List Batch) : SState × L
 
 def pingItem (off : Int) : Item := { cmd := bPing, args := [], offset := off, db := 0 }
 
+/-- transactional mode, `if needFlush { sendFunc(...) }` inside the item case:
+    flush what was queued before this item. D5 repair: a barrier's own end
+    offset is only stored once the barrier itself has been sent; EXEC closes the
+    transaction being flushed, so its end (`s.lastOffset`) is right. -/
+def preFlush (c : SCfg) (s : SState) (t : Txn) (nf : Bool) (prev : Int) : SState × List Batch :=
+  if nf then
+    let off := if t = .commit then s.lastOffset else prev
+    let r := sendOnce c s c.txnMode (c.resume && c.txnMode) off
+    ({ r.1 with needFlush := false, inTxn := false }, optToList r.2)
+  else (s, [])
+
+/-- transactional mode: MULTI/EXEC are absorbed, everything else is queued -/
+def absorb (s : SState) (t : Txn) (it : Item) : SState :=
+  if t ≠ .begin_ ∧ t ≠ .commit then enqueue s it
+  else if t = .begin_ then { s with inTxn := true } else s
+
+/-- transactional mode item handling once the status is known -/
+def stepItemTxn (c : SCfg) (s : SState) (t : Txn) (nf : Bool) (it : Item) (prev : Int) :
+    SState × List Batch :=
+  let r := preFlush c s t nf prev
+  tail c (absorb r.1 t it) c.txnMode (c.resume && c.txnMode) r.2
+
+/-- ticker mode item handling once the status is known: MULTI is dropped
+    (`continue`), EXEC forces a flush, everything else is queued -/
+def stepItemPlain (c : SCfg) (s : SState) (t : Txn) (it : Item) : SState × List Batch :=
+  if t = .begin_ then (s, [])                              -- `continue`
+  else if t = .commit then tail c { s with needFlush := true } c.txnMode (c.resume && c.txnMode) []
+  else tail c (enqueue s it) c.txnMode (c.resume && c.txnMode) []
+
+/-- the item case of the loop, after `lastOffset = item.Offset` -/
+def stepItem (c : SCfg) (s : SState) (it : Item) (prev : Int) : SState × List Batch :=
+  let t := (txnStatus it.cmd s.txn).1
+  let nf := (txnStatus it.cmd s.txn).2
+  let s := { s with txn := t, needFlush := nf }
+  if c.txnMode then stepItemTxn c s t nf it prev
+  else stepItemPlain c s t it
+
 /-- one iteration of the `sendCmdsBatch` loop -/
 def step (c : SCfg) (s : SState) (ev : Ev) : SState × List Batch :=
   let tb0 := c.txnMode
   let up0 := c.resume && c.txnMode
   match ev with
   | .item it =>
-    let prev := s.lastOffset
-    let s := { s with lastOffset := it.offset }
-    if it.cmd = bPing then (s, [])                               -- `continue`
-    else
-      let (t, nf) := txnStatus it.cmd s.txn
-      let s := { s with txn := t, needFlush := nf }
-      if c.txnMode then
-        let (s, out1) :=
-          if nf then
-            -- flush what was queued before this item (D5 repair: a barrier's own
-            -- end offset is only stored once the barrier itself has been sent;
-            -- EXEC closes the transaction being flushed, so its end is right)
-            let off := if t = .commit then s.lastOffset else prev
-            let (s', b) := sendOnce c s tb0 up0 off
-            ({ s' with needFlush := false, inTxn := false }, optToList b)
-          else (s, [])
-        let s := if t ≠ .begin_ ∧ t ≠ .commit then enqueue s it
-                 else if t = .begin_ then { s with inTxn := true } else s
-        tail c s tb0 up0 out1
-      else
-        if t = .begin_ then (s, [])                              -- `continue`
-        else if t = .commit then tail c { s with needFlush := true } tb0 up0 []
-        else tail c (enqueue s it) tb0 up0 []
+    if it.cmd = bPing then ({ s with lastOffset := it.offset }, [])      -- `continue`
+    else stepItem c { s with lastOffset := it.offset } it s.lastOffset
   | .batchTick =>
     let s := if !s.needFlush && !s.inTxn && !s.queue.isEmpty then { s with needFlush := true } else s
     tail c s tb0 up0 []
